@@ -322,6 +322,72 @@ def build(arg):
     return T
 """
 
+# derived (two levels) and templated std.Record: field order / bit layout must not depend on set order
+MODULES["record"] = HEADER + """
+class W(int):
+    pass
+class Base(std.Record):
+    a: Bit
+    bb: BitVector[2]
+class Derived(Base):
+    c: Unsigned[3]
+    dd: Bit
+class Derived2(Derived):
+    e: BitVector[2]
+    ff: Bit
+class Tmpl(std.Record[W]):
+    x: BitVector[W]
+    y: Bit
+    zz: Unsigned[W]
+class T(Entity):
+    inp = Port.input(BitVector[10])
+    o = Port.output(BitVector[10])
+    p = Port.output(BitVector[7])
+    q = Port.output(Bit)
+    def architecture(self):
+        s = Signal[Derived2]()
+        t = Signal[Tmpl[3]]()
+        @std.concurrent
+        def logic():
+            s.next = std.from_bits[Derived2](self.inp)
+            self.o <<= std.to_bits(s)
+            t.next = std.from_bits[Tmpl[3]](self.inp[6:0])
+            self.p <<= std.to_bits(t)
+            self.q <<= s.dd ^ t.y
+
+def build(arg):
+    return T
+"""
+
+# compiled with the additional_reserved_names= keyword of std.VhdlCompiler (must only affect this compilation)
+MODULES["reserved"] = HEADER + """
+COMPILE_KWARGS = {"additional_reserved_names": {"loc", "temp", "sig", "t", "rec", "cnt", "proc", "sync_flag_tx"}}
+
+class T(Entity):
+    clk = Port.input(Bit)
+    a = Port.input(Bit)
+    k = Port.output(Bit)
+    p = Port.output(Bit, default=False)
+
+    def architecture(self):
+        loc = Signal[Bit](False, name="loc")
+        cnt = Signal[Unsigned[2]](0, name="cnt")
+
+        @std.sequential(std.Clock(self.clk))
+        def proc():
+            cnt.next = cnt + 1
+            if self.a & cnt[0]:
+                self.p ^= True
+                loc.next = ~loc
+
+        @std.concurrent
+        def logic():
+            self.k <<= loc | (self.a & self.p)
+
+def build(arg):
+    return T
+"""
+
 # names that collide (case-insensitively, with reserved words, with each other across scopes)
 MODULES["names"] = HEADER + """
 class T(Entity):
@@ -661,6 +727,8 @@ LETTERS: dict[str, tuple] = {
     "env3": ("env", 3, "accept", "one module-level entity class whose architecture() reads module global W, W=3"),
     "env5": ("env", 5, "accept", "same class object, W=5"),
     "alias": ("alias", None, "accept", "one Signal (and a sub-reference of it) bound to several Python names used in one context"),
+    "record": ("record", None, "accept", "derived (2 levels) and templated std.Record, from_bits/to_bits layout"),
+    "reserved": ("reserved", None, "accept", "compiled with std.VhdlCompiler.to_string(..., additional_reserved_names={...})"),
     "names": ("names", None, "accept", "colliding / reserved / case-different names"),
     "exitcoro": ("exitcoro", None, "accept", "sub-entities with coroutines + cohdl.always, cohdl.on_block_exit handlers"),
     "rej_arch": ("rej_arch", None, "reject", "exception raised in architecture()"),
